@@ -394,7 +394,7 @@ def language_oracle(rep, cases, maxlen, n_parse):
 # evaluation
 # ---------------------------------------------------------------------------------------------
 
-PLAIN_FAMILIES = ("sugar", "meta", "layout")      # specs of these families are valid grammars
+PLAIN_FAMILIES = ("sugar", "sugar-clash", "meta", "layout")      # specs of these families are valid grammars
 
 # which finding classes (driver `front class`) explain which oracle failure tags
 EXPLAINS = {
@@ -496,7 +496,7 @@ def evaluate(rep, cases, proofs_ok, findings, mode, tier):
                 if tag not in seen:
                     seen.add(tag)
                     failures.append((c, tag, why))
-        elif c.impl[0] == "err" and c.tag.split(":")[0].rstrip("0123456789-clashany") in PLAIN_FAMILIES and not c.classes \
+        elif c.impl[0] == "err" and c.tag in PLAIN_FAMILIES and not c.classes \
                 and not legit_err(c.spec, c.impl):
             failures.append((c, "spurious-diagnostic", f"a valid grammar is rejected: {summary(c.impl)}"))
     # oracle (2): language
